@@ -1440,7 +1440,7 @@ func body(r *vlib.Run) {
 
 	// Mode 2: random sequences of 2-12 loads, each produced by mutating an
 	// earlier configuration of the sequence.
-	r.ForTrials("random", r.N(40000, 1500000), func(trial int, rng *rand.Rand) {
+	r.ForTrials("random", r.N(40000, 1000000), func(trial int, rng *rand.Rand) {
 		n := 2 + rng.Intn(11)
 		useBase := rng.Intn(4) == 0
 		noHandlers := rng.Intn(25) == 0
